@@ -349,6 +349,47 @@ def run(prop: str, tier_: str) -> int:
                       floor_ok)
 
 
+def replay(prop: str, path: str) -> int:
+    doc = common.load_replay(path)
+    case = doc["case"]
+    res = Result("C16", "translation_validation", doc.get("tier", "quick"))
+    d = dict(case["definition"])
+    d.setdefault("_origin", "replay")
+    print(f"replay C16: definition {d.get('name')} ({doc['key']})")
+    why = in_subset(d)
+    if why is not None:
+        print(f"definition is outside the supported subset now: {why}")
+        return common.EXIT_INCONCLUSIVE
+    pins = defs.pinned_definitions()
+    always = {name: pins[name] for name in defs.ALWAYS}
+    survivors = _generate_with_bisect(res, [d], always, {})
+    if survivors:
+        sdefs = dict(always)
+        sdefs[_file_name(d)] = defgen.strip_private(d)
+        with defs.Scratch(sdefs) as sc:
+            g = sc.generate()
+            tmp = tempfile.mkdtemp(prefix="kv-c16-")
+            try:
+                bfile, ofile = os.path.join(tmp, "batch.json"), os.path.join(tmp, "out.json")
+                json.dump({"defs": [d], "tier": "thorough", "batch": 0}, open(bfile, "w"))
+                env = sc.env()
+                env["KIO_REPO"] = str(sc.root)
+                p = subprocess.run([sys.executable, "-m", "kv.checks.generator", "--eval", bfile, ofile], cwd=str(common.VERIF), env=env, capture_output=True, text=True, timeout=1200)
+                if g.returncode != 0 or p.returncode != 0:
+                    res.inconclusive_because(f"generation/evaluation failed: {(g.stderr + p.stderr)[-600:]}")
+                else:
+                    for v in json.load(open(ofile))["violations"]:
+                        if v["kind"] == "D6":
+                            res.known_or_violation(D6, "D6:" + v["key"], v["summary"], v["payload"])
+                        else:
+                            res.violation(v["key"], v["summary"], v["payload"])
+            finally:
+                import shutil
+
+                shutil.rmtree(tmp, ignore_errors=True)
+    return common.finish_replay(res)
+
+
 if __name__ == "__main__":
     if len(sys.argv) == 4 and sys.argv[1] == "--eval":
         sys.exit(_eval(sys.argv[2], sys.argv[3]))
